@@ -17,6 +17,11 @@
     * `HookHost.__deepcopy__`, `_SubUnitsList.__deepcopy__` (pyroll/core/hooks.py, unit.py) → `copyBody` / `copyObj`
       (memo; weak references re-pointed through the memo)
     * `_SubUnitsList.append` / `__setitem__`, a changed keyword value → `appendUnit` / `replaceUnit` / `setGap`.
+    * `PassSequence.solve_velocities_forward` / `solve_velocities_backward` (pyroll/core/sequence/sequence.py) →
+      `solveVel` (hooks of the roll passes read, `roll_pass.velocity = …`, `self.solve(in_profile)`, repeated)
+    * an explicit value that is a CALLABLE holding references (bound method of another unit, `functools.partial`,
+      callable object) → an object of kind `closure` (`bindCallable`); `copy.deepcopy` rebuilds it from the copies of
+      what it refers to (`types.MethodType`: `_deepcopy_method`; `partial` / objects: `__reduce_ex__`), through the memo
     * the hook value cache (`HookHost.__init__`: `self.__cache__ = dict()`, `Hook.__get__`, `reevaluate_cache`,
       `rotator_factory`'s `pop`) → component `cache` of an object (the names cached), effect `cachew`,
       `cacheAdd` / `reCache`; both shallow copies start with an empty cache of their own.
@@ -40,6 +45,9 @@ inductive Kind where
   | outProfile
   | unit          -- any `Unit` (see `tag`)
   | subList       -- `Unit._SubUnitsList`
+  | closure       -- a callable given as an explicit value that holds references (bound method `x.__self__`,
+                  -- `functools.partial` arguments, attributes of a callable object); `deepcopy` rebuilds it from the
+                  -- deep copies of what it refers to
   deriving DecidableEq, Repr
 
 /-- unit tags: 1 roll pass, 2 transport, 3 pass sequence, 4 rotator, 5 disk element, 0 other -/
@@ -67,6 +75,8 @@ def fRADIUS : Nat := 31
 def fTORQUE : Nat := 32   -- roll_torque (root hook of the pass roll)
 def fGAP : Nat := 40
 def fRES : Nat := 41      -- a root-hook result of the unit itself (power …)
+def fUVEL : Nat := 42     -- `velocity` of a roll pass, set by `PassSequence.solve_velocities_forward/backward`
+def fBIND : Nat := 50     -- what a callable (`Kind.closure`) is bound to (`__self__`, a `partial` argument, an attribute)
 def fIN : Nat := 100      -- structural entries of a unit; a profile never has them
 def fOUT : Nat := 101
 def fROLL : Nat := 102
@@ -604,6 +614,45 @@ def setGap (s : S) (u : Nat) : S :=
   let (s1, a) := s.alloc { kind := .atom }
   s1.write u fGAP a
 
+/-- the caller gives unit `u` an explicit value that is a callable bound to object `t` (`Transport(duration=
+first_pass.pause_after)`, `gap=functools.partial(same_gap_as, first_pass)`, a callable object holding `t`), under the
+entry `f` -/
+def bindCallable (s : S) (u f t : Nat) : S :=
+  let (s1, c) := s.alloc { kind := .closure, fields := [(fBIND, t)] }
+  s1.write u f c
+
+/-! ### the velocity solvers of a pass sequence -/
+
+/-- `usable_cross_section_areas = [roll_pass.usable_cross_section.area for roll_pass in self.roll_passes]`: hooks of the
+roll passes listed directly in the sequence (and of their rolls) are evaluated - their caches may gain names -/
+def velRead (cs : List Nat) (s : S) : S :=
+  cs.foldl (fun a c =>
+    if (a.h.obj c).tag = 1 then onRoll (fun b r => cacheAdd b r cROLL) (cacheAdd a c cUNIT) (getF a.h c fROLL) else a) s
+
+/-- `set_velocities_to_roll_passes`: `roll_pass.velocity = velocity` (a new scalar) for every roll pass listed
+directly in the sequence -/
+def setVels (cs : List Nat) (s : S) : S :=
+  cs.foldl (fun a c =>
+    if (a.h.obj c).tag = 1 then
+      let (s1, x) := a.alloc { kind := .atom }
+      s1.write c fUVEL x
+    else a) s
+
+/-- one round of `PassSequence.solve_velocities_forward` / `solve_velocities_backward`: the velocities are set on the
+roll passes, then `self.solve(in_profile)` - with the caller's profile as it is; the returned profile is dropped -/
+def velRound (P : Producers) (s : S) (u p : Nat) : S :=
+  let s1 := setVels (subItems s.h u) s
+  (solveU P (s1.h.next + 1) s1 u p).1
+
+def velRounds (P : Producers) : Nat → S → Nat → Nat → S
+  | 0, s, _, _ => s
+  | n + 1, s, u, p => velRounds P n (velRound P s u p) u p
+
+/-- `seq.solve_velocities_forward(in_profile, …)` / `solve_velocities_backward(…)` with `n` rounds in all (the first
+solve and the passes of the velocity loop; `n` is numeric, an input of the model); nothing is returned -/
+def solveVel (P : Producers) (n : Nat) (s : S) (u p : Nat) : S :=
+  velRounds P n (velRead (subItems s.h u) s) u p
+
 /-! ### histories -/
 
 inductive Op where
@@ -611,6 +660,8 @@ inductive Op where
   | append (q u : Nat)
   | replace (q i u : Nat)
   | gap (u : Nat)
+  | solveVel (u p n : Nat)     -- a velocity solver of the sequence `u` with the caller's profile `p`, `n` rounds
+  | bind (u f t : Nat)         -- an explicit value of unit `u` (entry `f`, not structural) := a callable bound to `t`
   deriving Repr
 
 /-- one op of a history; an op that names an unallocated object or a non-unit is a no-op -/
@@ -620,6 +671,10 @@ def step (P : Producers) (s : S) : Op → S
   | .append q u => if u < s.h.next ∧ (s.h.obj u).kind = .unit then appendUnit s q u else s
   | .replace q i u => if u < s.h.next ∧ (s.h.obj u).kind = .unit then replaceUnit s q i u else s
   | .gap u => if u < s.h.next ∧ (s.h.obj u).kind = .unit then setGap s u else s
+  | .solveVel u p n =>
+    if u < s.h.next ∧ p < s.h.next ∧ (s.h.obj u).kind = .unit then solveVel P n s u p else s
+  | .bind u f t =>
+    if u < s.h.next ∧ t < s.h.next ∧ (s.h.obj u).kind = .unit ∧ isPublic f = true then bindCallable s u f t else s
 
 def run (P : Producers) (s : S) (ops : List Op) : S := ops.foldl (step P) s
 
